@@ -99,7 +99,7 @@ def shared_case(draw):
         scols.append({"name": name, "dtype": "str", "nullable": True, "unique": False, "required": True,
                       "checks": [{"kind": kind, "args": args}]})
         case = {"spec": spec, "table": table, "parser_ops": [], "lazy_container": False}
-        return case
+        return _reserved_label(draw, case)
     case = {"spec": spec, "table": table}
     r = draw(st.integers(0, 9))
     if r >= 3:
@@ -111,6 +111,20 @@ def shared_case(draw):
     if draw(st.integers(0, 2)) == 0:
         case = _add_parsers(draw, case)
     case["lazy_container"] = draw(st.integers(0, 3)) == 0
+    return _reserved_label(draw, case)
+
+
+def _reserved_label(draw, case):
+    """now and then a data column is called what an engine or pandera calls a helper column: the meaning of a schema
+    does not depend on the labels of the data"""
+    if case["table"]["columns"] and draw(st.integers(0, 11)) == 0:
+        from . import plx
+
+        old = draw(st.sampled_from([t["name"] for t in case["table"]["columns"]]))
+        new = draw(st.sampled_from(plx.RESERVED_LOOKING))
+        if new not in [t["name"] for t in case["table"]["columns"]] + [c["name"] for c in case["spec"]["columns"]]:
+            plx.rename_label(case, old, new)
+            case["reserved_label"] = new
     return case
 
 
@@ -352,7 +366,18 @@ def evaluate(case):
         except refmodel.Undefined as e:
             ev.skipped = "undefined:" + str(e)[:50]
             return ev
+    if ref is None:
+        # (with parsing options there is no reference run: the same exclusion decided from the spec)
+        tcs_ = {t["name"]: t for t in table["columns"]}
+        for col in spec["columns"]:
+            t_ = tcs_.get(col["name"])
+            if (t_ is not None and col.get("checks") and col.get("dtype") in plx._PHYS_OF and not (col.get("coerce") or spec.get("coerce"))
+                    and t_["phys"] != plx._PHYS_OF[col["dtype"]]):
+                ev.skipped = "a check runs on data of the wrong dtype (outcome undefined)"
+                return ev
     ev.labels.append("parsers=" + ("+".join(sorted(set(ops))) or "none"))
+    if case.get("reserved_label"):
+        ev.labels.append("reserved-looking-label")
     checks = [c["kind"] for col in spec["columns"] for c in col.get("checks", [])]
     for k in set(checks):
         ev.labels.append("check=" + k)
@@ -524,6 +549,14 @@ def _kf_ignore_na(family, case, disc):
     if disc.kind == "failing-cells-differ:polars-misses":
         return all(v == "null" for _, _, v in d.get("only_pandas", []))
     return disc.kind.startswith("verdict-differs:polars-accepts:") and set(disc.kind.split(":")[-1].split("+")) <= {"DATAFRAME_CHECK"}
+
+
+@known.finding("C08/polars-data-column-named-check_output")
+def _kf_check_output_label(family, case, disc):
+    """polars: pandera's helper column 'check_output' collides with a data column of that name - failing cells are lost
+    (the report carries polars' DuplicateError text instead)"""
+    return case.get("reserved_label") == "check_output" and disc.kind in ("failing-cells-differ:polars-misses",
+                                                                         "frame-level-failures-differ")
 
 
 @known.finding("C08/pandas-omits-null-duplicates-from-report")
